@@ -830,6 +830,27 @@ def oracle_for(prop):
             if len(samples) < 5:
                 samples.append({"network": label, "species": [s.name for s in net.species],
                                 "reactions": [f"{r:minimal}" for r in net.reaction_list][:6]})
+        if prop == "C13":
+            try:
+                fresh_species_state()
+                from naunet.network import Network
+                reacs = [(["C", "H"], ["CH"], dict(alpha=1.0)), (["CH", "H"], ["C", "H2"], dict(alpha=2.0))]
+                base = Network([mk_reaction(*r[:2], **r[2]) for r in reacs])
+                fresh_species_state()
+                odd = Network([mk_reaction(*r[:2], **r[2]) for r in reacs], ode_modifier={"OH": {"factors": ["2.5"], "reactants": [["H"]]}})
+                cases += 1
+                try:
+                    fo = Rendered(odd, BACKENDS[0]).fex_statements()
+                except Exception:
+                    fo = None        # refused: fine
+                if fo is not None:
+                    fb = Rendered(base, BACKENDS[0]).fex_statements()
+                    norm = lambda st: sorted((i.strip(), " ".join(r.split())) for i, r in st)
+                    if norm(fo) != norm(fb):
+                        viol.append({"property": "C13", "network": "modifier-for-absent-species", "what": "absent-target: an ODE modifier naming OH (not a species of the network) was accepted and changed the equations "
+                                     + str([x for x in norm(fo) if x not in norm(fb)][:2]), "signature": "C13:modifier-for-absent-species::absent-target"})
+            except Exception as e:
+                viol.append({"property": "C13", "network": "modifier-for-absent-species", "what": f"raises: {type(e).__name__}: {e}", "signature": "C13:modifier-for-absent-species::raises"})
         fresh_species_state()
         return {"cases": cases, "distinct": cases, "violations": viol, "samples": samples,
                 "bound": "hand-picked small networks (<= 6 reactions, <= 3 reactants, <= 5 products) + seeded random networks x 4 back ends",
